@@ -141,3 +141,41 @@ Example C01_v2_nonce32_refuted_nonvacuous :
   exists p, v2_local_seal toy key32 sfx (r32 ++ msg) foot [] = Ok p /\
             v2_local_unseal toy key32 sfx p foot [] = Ok (drop 24 r32 ++ msg) /\ drop 24 r32 ++ msg <> msg.
 Proof. exact (C01_v2_nonce32_refuted toy toy_laws key32 sfx msg foot r32 eq_refl). Qed.
+
+(* ---- whole-API end-to-end theorems (added after the first audit): Claims = Foot = bytes, identity codecs ---- *)
+Example C01_v4_local_end_to_end_nonvacuous :
+  exists tok,
+    seal (v4_local_seal toy) sfx (@Some bytes) (@Some bytes) key32 msg foot aad (v4_local_nonce draw7) = Ok tok /\
+    parse_token fdec_vec (str "v4") sfx (str ".local.") (print_token (str "v4") sfx (str ".local.") tok) = Ok (tok, foot) /\
+    fst (unseal (v4_local_unseal toy) sfx (@Some bytes) (fun _ => Ok tt) key32 tok foot aad) = Ok (msg, foot).
+Proof.
+  exact (C01_v4_local_end_to_end toy toy_laws bytes bytes sfx (@Some bytes) (@Some bytes) (@Some bytes) fdec_vec
+           (fun _ => Ok tt) draw7 (str "v4") (str ".local.") key32 msg foot aad (repeat x07 32) msg foot
+           draw7_exact eq_refl eq_refl eq_refl eq_refl eq_refl eq_refl).
+Qed.
+
+(* ... and the token it speaks of is a concrete one whose payload is not the claims in clear at offset 0 *)
+Example C01_v4_local_end_to_end_nonvacuous_computes :
+  exists tok, seal (v4_local_seal toy) sfx (@Some bytes) (@Some bytes) key32 msg foot aad (v4_local_nonce draw7) = Ok tok /\
+              length (t_payload tok) = 86 /\ t_footer tok = foot.
+Proof. eexists. split; [vm_compute; reflexivity|]. split; vm_compute; reflexivity. Qed.
+
+Example C01_v3_awslc_local_end_to_end_nonvacuous :
+  exists tok,
+    seal (lc_local_seal toy) sfx (@Some bytes) (@Some bytes) key32 msg foot aad (lc_local_nonce draw7) = Ok tok /\
+    parse_token fdec_vec (str "v3") sfx (str ".local.") (print_token (str "v3") sfx (str ".local.") tok) = Ok (tok, foot) /\
+    fst (unseal (lc_local_unseal toy) sfx (@Some bytes) (fun _ => Ok tt) key32 tok foot aad) = Ok (msg, foot).
+Proof.
+  exact (C01_v3_awslc_local_end_to_end toy toy_laws bytes bytes sfx (@Some bytes) (@Some bytes) (@Some bytes) fdec_vec
+           (fun _ => Ok tt) draw7 (str "v3") (str ".local.") key32 msg foot aad (repeat x07 32) msg foot
+           draw7_exact eq_refl eq_refl eq_refl eq_refl eq_refl eq_refl).
+Qed.
+
+(* a failing validator makes the hypothesis false, and the conclusion too: the hypothesis is used *)
+Example C01_v4_local_end_to_end_nonvacuous_validate_matters :
+  forall tok, seal (v4_local_seal toy) sfx (@Some bytes) (@Some bytes) key32 msg foot aad (v4_local_nonce draw7) = Ok tok ->
+  fst (unseal (v4_local_unseal toy) sfx (@Some bytes) (fun _ => Err ClaimsError) key32 tok foot aad) <> Ok (msg, foot).
+Proof. intros tok H. vm_compute in H. inversion H. subst tok. vm_compute. discriminate. Qed.
+
+Example C01_premises_satisfiable_nonvacuous : exists O, laws O /\ sha384 O [] = z 48.
+Proof. destruct C01_premises_satisfiable as (O & L). exists toy. split; [exact toy_laws|reflexivity]. Qed.
